@@ -100,8 +100,8 @@ class MidiTrack(object):
                 self.set_deltatime(self.delay)
                 self.delay = 0
                 if hasattr(x[2], "bpm"):
-                    self.set_deltatime(0)
                     self.set_tempo(x[2].bpm)
+                    self.set_deltatime(0)
                 self.play_NoteContainer(x[2])
                 self.set_deltatime(self.int_to_varbyte(tick))
                 self.stop_NoteContainer(x[2])
@@ -111,7 +111,6 @@ class MidiTrack(object):
         track_data."""
         if hasattr(track, "name"):
             self.set_track_name(track.name)
-        self.delay = 0
         instr = track.instrument
         if hasattr(instr, "instrument_nr"):
             self.change_instrument = True
